@@ -500,6 +500,100 @@ func sampleNodeInfoV28() NodeInfo {
 	return ni
 }
 
+// ---- follow-up vs. reconnect race ----------------------------------------------------------------------------------------------
+// A follow-up whose payload takes milliseconds to copy is emitted while the connection is killed and re-established under
+// it (reconnect delay 1 ms). Whatever the interleaving, the child must be refused or carry its parent's epoch.
+
+type v28Sink struct {
+	closed    chan struct{}
+	peerClose chan struct{}
+	once      sync.Once
+	peerOnce  sync.Once
+}
+
+func (c *v28Sink) Write(b []byte) (int, error) {
+	select {
+	case <-c.closed:
+		return 0, net.ErrClosed
+	default:
+		return len(b), nil
+	}
+}
+func (c *v28Sink) Read(b []byte) (int, error) {
+	select {
+	case <-c.closed:
+		return 0, net.ErrClosed
+	case <-c.peerClose:
+		return 0, io.EOF
+	}
+}
+func (c *v28Sink) Close() error                     { c.once.Do(func() { close(c.closed) }); return nil }
+func (c *v28Sink) LocalAddr() net.Addr              { return &net.TCPAddr{} }
+func (c *v28Sink) RemoteAddr() net.Addr             { return &net.TCPAddr{} }
+func (c *v28Sink) SetDeadline(time.Time) error      { return nil }
+func (c *v28Sink) SetReadDeadline(time.Time) error  { return nil }
+func (c *v28Sink) SetWriteDeadline(time.Time) error { return nil }
+
+func v28FollowupRace(r vh.R, attempts int, overlapped *int) (string, map[string]any) {
+	var mu sync.Mutex
+	var cur *v28Sink
+	cli, err := newTCPClient(Config{Endpoint: "v28", NodeInfo: sampleNodeInfoV28(), BufferSize: 8, ReconnectMin: time.Millisecond, ReconnectMax: time.Millisecond,
+		CloseTimeout: 3 * time.Second, TailDropInterval: time.Millisecond})
+	if err != nil {
+		return "client construction failed", nil
+	}
+	cli.dialer = func(ctx context.Context, addr string) (net.Conn, error) {
+		c := &v28Sink{closed: make(chan struct{}), peerClose: make(chan struct{})}
+		mu.Lock()
+		cur = c
+		mu.Unlock()
+		return c, nil
+	}
+	cli.start()
+	defer cli.Close()
+	big := make([]byte, 24<<20)
+	for a := 0; a < attempts; a++ {
+		dl := time.Now().Add(10 * time.Second)
+		for !cli.Enabled() && time.Now().Before(dl) {
+			time.Sleep(100 * time.Microsecond)
+		}
+		parent := cli.Emit(5, []byte{1})
+		if parent == InvalidID {
+			continue
+		}
+		epochBefore, _ := cli.seq.snapshot()
+		done := make(chan uint64, 1)
+		lazy := a%4 == 3
+		go func() {
+			if lazy {
+				done <- cli.EmitFollowupLazy(6, parent, func() []byte { return []byte{2} })
+			} else {
+				done <- cli.EmitFollowup(6, parent, big)
+			}
+		}()
+		time.Sleep(time.Duration(r.IntN(1500)) * time.Microsecond)
+		mu.Lock()
+		c := cur
+		mu.Unlock()
+		c.peerOnce.Do(func() { close(c.peerClose) }) // the aggregator goes away; the client reconnects within ~1 ms
+		var child uint64
+		select {
+		case child = <-done:
+		case <-time.After(30 * time.Second):
+			return "EmitFollowup did not return within 30 s", map[string]any{"attempt": a}
+		}
+		epochAfter, _ := cli.seq.snapshot()
+		if epochAfter != epochBefore {
+			*overlapped++
+		}
+		if child != InvalidID && eventIDEpoch(child) != eventIDEpoch(parent) {
+			return "follow-up accepted with a parent from another connection (epoch differs)",
+				map[string]any{"attempt": a, "parent_epoch": eventIDEpoch(parent), "child_epoch": eventIDEpoch(child), "lazy": lazy, "stratum": "reconnect under a slow follow-up"}
+		}
+	}
+	return "", nil
+}
+
 func TestVerifC28(t *testing.T) {
 	h := vh.Open(t, "C28")
 	defer h.Done()
@@ -523,6 +617,14 @@ func TestVerifC28(t *testing.T) {
 			d["gomaxprocs"] = procs
 			h.Viol("run", ci, "", why, d)
 			continue
+		}
+		if ci%8 == 0 { // the follow-up / reconnect race (memory-hungry: 24 MiB payloads), in every 8th run
+			overl := 0
+			if why, d := v28FollowupRace(r, 4, &overl); why != "" {
+				h.Viol("run", ci, "", why, d)
+				continue
+			}
+			h.Count("followups_emitted_while_the_connection_was_replaced", int64(overl))
 		}
 		h.Inc("runs")
 		h.Count("connections", int64(obs.conns))
